@@ -47,6 +47,10 @@ CLAIMED = {
             "For each enumerated signature/order/leading-axis layout and every applicable inverse pair (and seeded chains of <=3) z3 proves "
             "roundtrip(x) = x for ALL entries; to_scalar_multi_image equals its documented channel layout.",
             "save/load (file I/O) is outside and NOT claimed; bounded signatures (k<=3, channels<=4), 0-3 leading axes, d<=3.", "4/C13"),
+    "C14": (JX, "symbolic execution of the batched MultiImage methods / jax.vmap(layer) vs. the single-image method / un-batched layer executed separately; z3 per entry",
+            "For each enumerated leading-axis layout z3 proves op(X)[b,c] = single_image_op(X[b,c]) for ALL entries, and vmap(layer)(X)[b] = layer(X[b]) "
+            "plus direct independence from the other batch entries, for ConvContract, VN nonlinearity, MaxNormPool, scalar GroupNorm, ConvBlock, a tiny ResNet.",
+            "Reals; fixed seeded layer parameters; bounded shapes; large intermediate polynomials are let-abstracted (def atoms, refined on demand).", "4/C14"),
 }
 
 NOT_YET = {}
